@@ -457,3 +457,120 @@ pub fn ctor_results(len: usize) -> Vec<(&'static str, usize, bool, bool)> {
     ctor!("MplsLabelStackMemberPacket", MplsLabelStackMemberPacket<'_>, 4);
     out
 }
+
+
+/// Options / payload regions: for every header length the region accessors must address the octets
+/// the RFC assigns to them, `set_payload` must write there and nowhere else, and the read-only
+/// accessors must not modify the buffer.  Returns (key, detail) per discrepancy.
+pub fn region_results(n: &mut u64) -> Vec<(String, String)> {
+    use trippy_packet::icmpv4::echo_request::EchoRequestPacket as Echo4;
+    use trippy_packet::icmpv6::echo_request::EchoRequestPacket as Echo6;
+    use trippy_packet::udp::UdpPacket;
+    let mut bad: Vec<(String, String)> = vec![];
+    let ramp = |len: usize| -> Vec<u8> { (0..len).map(|i| (i as u8).wrapping_mul(31).wrapping_add(3)).collect() };
+    let pay: Vec<u8> = (0..11u8).map(|i| 0xc0 | i).collect();
+    let mut check = |name: &str, ok: bool, detail: String, bad: &mut Vec<(String, String)>| {
+        *n += 1;
+        if !ok {
+            bad.push((format!("region:{name}"), detail));
+        }
+    };
+    // IPv4: header length 5..=15 words
+    for ihl in 5..=15usize {
+        let len = ihl * 4 + pay.len() + 2;
+        let mut buf = ramp(len);
+        buf[0] = 0x40 | ihl as u8;
+        let orig = buf.clone();
+        let r = crate::mc::catch(|| {
+            let p = Ipv4Packet::new_view(&buf).unwrap();
+            (p.get_options_raw().to_vec(), p.payload().to_vec())
+        });
+        match r {
+            Ok((opts, pl)) => {
+                check("Ipv4.options_raw", opts == orig[20..ihl * 4], format!("ihl {ihl}: options {opts:02x?} expected octets 20..{}", ihl * 4), &mut bad);
+                check("Ipv4.payload", pl == orig[ihl * 4..], format!("ihl {ihl}: payload starts with {:02x?}, expected the octets from {}", &pl[..pl.len().min(4)], ihl * 4), &mut bad);
+            }
+            Err(e) => check("Ipv4.view", false, format!("ihl {ihl}: {}", e.message), &mut bad),
+        }
+        check("Ipv4.view-modifies-buffer", buf == orig, format!("ihl {ihl}"), &mut bad);
+        let mut w = orig.clone();
+        let r = crate::mc::catch(|| {
+            let mut p = Ipv4Packet::new(&mut w).unwrap();
+            p.set_payload(&pay);
+            let o = p.get_options_raw_mut().to_vec();
+            o
+        });
+        let mut want = orig.clone();
+        want[ihl * 4..ihl * 4 + pay.len()].copy_from_slice(&pay);
+        match r {
+            Ok(o) => {
+                check("Ipv4.set_payload", w == want, format!("ihl {ihl}: buffer differs from the original with the payload at {}", ihl * 4), &mut bad);
+                check("Ipv4.options_raw_mut", o == orig[20..ihl * 4], format!("ihl {ihl}"), &mut bad);
+            }
+            Err(e) => check("Ipv4.set_payload", false, format!("ihl {ihl}: {}", e.message), &mut bad),
+        }
+    }
+    // TCP: data offset 5..=15 words
+    for doff in 5..=15usize {
+        let len = doff * 4 + pay.len() + 1;
+        let mut buf = ramp(len);
+        buf[12] = (doff as u8) << 4 | (buf[12] & 0x0f);
+        let orig = buf.clone();
+        let r = crate::mc::catch(|| {
+            let p = TcpPacket::new_view(&buf).unwrap();
+            (p.get_options_raw().to_vec(), p.payload().to_vec())
+        });
+        match r {
+            Ok((opts, pl)) => {
+                check("Tcp.options_raw", opts == orig[20..doff * 4], format!("data offset {doff}: {opts:02x?}"), &mut bad);
+                check("Tcp.payload", pl == orig[doff * 4..], format!("data offset {doff}"), &mut bad);
+            }
+            Err(e) => check("Tcp.view", false, format!("data offset {doff}: {}", e.message), &mut bad),
+        }
+        let mut w = orig.clone();
+        let r = crate::mc::catch(|| {
+            let mut p = TcpPacket::new(&mut w).unwrap();
+            p.set_payload(&pay);
+        });
+        let mut want = orig.clone();
+        want[doff * 4..doff * 4 + pay.len()].copy_from_slice(&pay);
+        check("Tcp.set_payload", r.is_ok() && w == want, format!("data offset {doff}"), &mut bad);
+    }
+    // fixed-position payloads: IPv6 (40, bounded by the payload length field), UDP (8), ICMP echo (8)
+    for plen in [0usize, 1, 7, 11] {
+        let len = 40 + 11 + 3;
+        let mut buf = ramp(len);
+        buf[4..6].copy_from_slice(&(plen as u16).to_be_bytes());
+        let orig = buf.clone();
+        let r = crate::mc::catch(|| Ipv6Packet::new_view(&buf).unwrap().payload().to_vec());
+        check("Ipv6.payload", matches!(&r, Ok(p) if *p == orig[40..40 + plen]), format!("payload length {plen}: {r:?}"), &mut bad);
+        let mut w = orig.clone();
+        let r = crate::mc::catch(|| Ipv6Packet::new(&mut w).unwrap().set_payload(&pay[..plen]));
+        let mut want = orig.clone();
+        want[40..40 + plen].copy_from_slice(&pay[..plen]);
+        check("Ipv6.set_payload", r.is_ok() && w == want, format!("payload length {plen}"), &mut bad);
+    }
+    macro_rules! fixed8 {
+        ($ty:ty, $name:literal) => {{
+            let orig = ramp(8 + pay.len() + 2);
+            let r = crate::mc::catch(|| <$ty>::new_view(&orig).unwrap().payload().to_vec());
+            check(concat!($name, ".payload"), matches!(&r, Ok(p) if *p == orig[8..]), format!("{r:?}"), &mut bad);
+            let mut w = orig.clone();
+            let r = crate::mc::catch(|| <$ty>::new(&mut w).unwrap().set_payload(&pay));
+            let mut want = orig.clone();
+            want[8..8 + pay.len()].copy_from_slice(&pay);
+            check(concat!($name, ".set_payload"), r.is_ok() && w == want, String::new(), &mut bad);
+        }};
+    }
+    fixed8!(UdpPacket<'_>, "Udp");
+    fixed8!(Echo4<'_>, "Icmp4EchoRequest");
+    fixed8!(Echo6<'_>, "Icmp6EchoRequest");
+    // extension object: payload = octets 4..length
+    for olen in [4usize, 5, 8, 12] {
+        let mut orig = ramp(olen + 3);
+        orig[0..2].copy_from_slice(&(olen as u16).to_be_bytes());
+        let r = crate::mc::catch(|| ExtensionObjectPacket::new_view(&orig).unwrap().payload().to_vec());
+        check("ExtensionObject.payload", matches!(&r, Ok(p) if *p == orig[4..olen]), format!("object length {olen}: {r:?}"), &mut bad);
+    }
+    bad
+}
